@@ -23,16 +23,18 @@ pub struct Shapes {
     prio: Option<Priority>,
     #[deb822(field = "Flag", serialize_with = ser_flag, deserialize_with = de_flag)]
     flag: Option<bool>,
+    #[deb822(field = "Note")]
+    note: Option<String>,
 }
 
-const KEYS: [&str; 7] = ["name", "X-Count", "Items", "Priority", "Flag", "Other", "Zeta"];
+const KEYS: [&str; 8] = ["name", "X-Count", "Items", "Priority", "Flag", "Note", "Other", "Zeta"];
 fn text(key: usize, v: u64) -> String {
     if v == 99 { return "###bad".into(); }
     if v == 7 { return "old".into(); }
     if v == 8 { return "older stuff".into(); }
     match (key, v) {
         (1, 1) => "foo", (1, 2) => "bar baz", (2, 1) => "0", (2, 2) => "-5", (3, 1) => "a", (3, 2) => "a, b c",
-        (4, 1) => "required", (4, 2) => "extra", (5, 1) => "yes", (5, 2) => "no", _ => "v",
+        (4, 1) => "required", (4, 2) => "extra", (5, 1) => "yes", (5, 2) => "no", (6, 1) => "", (6, 2) => "some note", _ => "v",
     }.to_string()
 }
 fn make(x: &Value) -> Shapes {
@@ -43,6 +45,7 @@ fn make(x: &Value) -> Shapes {
         items: de_list(&text(3, g(2))).unwrap(),
         prio: match g(3) { 0 => None, 1 => Some(Priority::Required), _ => Some(Priority::Extra) },
         flag: match g(4) { 0 => None, 1 => Some(true), _ => Some(false) },
+        note: match g(5) { 0 => None, 1 => Some(String::new()), _ => Some("some note".to_string()) },
     }
 }
 fn pairs(p: &Value) -> Vec<(String, String)> {
